@@ -22,6 +22,10 @@ struct vp_in {
     uint64_t off, len; /* store_part / fetch_part */
     uint8_t alt_pos, alt_val;
     uint8_t item;
+    /* an instance object may have been used before (or never initialised): its prior
+     * octets are arbitrary input, so that state left behind by an earlier life is
+     * both considered by the solver and reproducible in the replay (seed C10-E) */
+    uint8_t stale[sizeof(PersistentStorage)];
 };
 VP_DECLARE_INPUT();
 
@@ -44,6 +48,8 @@ static void scenario(const struct vp_in *in, uint8_t kind, uint8_t aux)
         return;
 
     PersistentStorage s;
+    for (size_t i = 0; i < sizeof s; ++i)
+        ((unsigned char *)&s)[i] = in->stale[i];
     c10_instance(&s, &cfg);
 
     uint8_t dst[DSTSZ];
